@@ -136,7 +136,26 @@ func c12Run(kind string, ncommon int, limitSpec string, seq []int, reps int) (st
 	for i := 0; i < ncommon; i++ {
 		common[fmt.Sprintf("common%d", i)] = fmt.Sprintf("cv%d", i)
 	}
+	// kind "binary<compact": a reporter with the Compact protocol is created first, in the same execution (one
+	// process), and stays open; the reporter under test uses Binary (reporters must not share what depends on the protocol)
+	first := ""
+	if i := strings.Index(kind, "<"); i > 0 {
+		kind, first = kind[:i], kind[i+1:]
+	}
+	var other *fastSink
+	if first != "" {
+		other = newFastSink()
+		defer other.close()
+	}
 	mk := func(limit int32) (m3.Reporter, error) {
+		if first != "" {
+			o, err := m3.NewReporter(m3.Options{HostPorts: []string{other.addr}, Service: "other", Env: "test", Protocol: m3Proto(first), MaxQueueSize: 16})
+			if err != nil {
+				return nil, err
+			}
+			o.AllocateCounter("warm", map[string]string{"a": "b"}).ReportCount(1)
+			// (left open on purpose: its goroutines end with the execution)
+		}
 		return m3.NewReporter(m3.Options{HostPorts: []string{s.addr}, Service: "svc", Env: "test", CommonTags: common, Protocol: m3Proto(kind), MaxQueueSize: 1024, MaxPacketSizeBytes: limit})
 	}
 	// probe: learn overhead and the largest single metric, so that "each single metric fits on its own" holds
@@ -332,11 +351,17 @@ func c12Jobs(tier string) []*SeqJob {
 	j := &SeqJob{Property: "C12", Name: "compositions-x-limits", Shards: 16, Controlled: true}
 	j.Run = func(ctx *SeqCtx) {
 		n := 0
-		for _, kind := range []string{"compact", "binary"} {
+		for _, kind := range []string{"compact", "binary", "binary<compact", "compact<binary"} {
 			for _, ncommon := range []int{0, 5, 12} {
+				if strings.Contains(kind, "<") && ncommon != 5 {
+					continue
+				}
 				for _, lim := range limits {
 					enumSeqs(nshapes+1, N, func(seq []int) bool {
 						if len(seq) == 0 {
+							return true
+						}
+						if strings.Contains(kind, "<") && len(seq) > 1 && tier != "thorough" {
 							return true
 						}
 						if ncommon > 10 && len(seq) > 1 && tier != "thorough" {
